@@ -122,6 +122,8 @@ func rlValueOK(k int, v string) bool {
 //	R        store.Respond200(nil)              model: h200
 //	Rw       store.Respond200("body")           model: h200,w
 //	J        store.RespondJson(1)               model: w
+//	flush    store.W.Flush()                    model: f   (implicit 200 when nothing was sent yet)
+//	flusherr store.W.FlushError()               model: f
 //	E404     store.Error404("own404")           model: h404,w
 //	E500     store.Error500("own500")           model: h500,w
 //	p<k>     panic with value kind k            model: p<k>
@@ -139,6 +141,8 @@ func rlModelTokens(tok string) []string {
 		return []string{"h404", "w"}
 	case "E500":
 		return []string{"h500", "w"}
+	case "flush", "flusherr":
+		return []string{"f"}
 	}
 	return []string{tok}
 }
@@ -169,6 +173,10 @@ func rlExec(store *httpd.Store, script string) {
 			store.Error404("own404")
 		case tok == "E500":
 			store.Error500("own500")
+		case tok == "flush":
+			store.W.Flush()
+		case tok == "flusherr":
+			store.W.FlushError()
 		case tok == "r":
 			return
 		case tok == "pa":
@@ -185,7 +193,7 @@ func rlExec(store *httpd.Store, script string) {
 
 // what a behaviour (model tokens) does, read off the script alone — the oracle's own semantics
 type rlSem struct {
-	status    int  // status the handler itself set first (explicit or 200 by writing); 0 = none
+	status    int  // status the handler itself set first (explicit or 200 by writing / flushing); 0 = none
 	panicKind int  // 0 = returns, -1 = ErrAbortHandler, k
 	inScope   bool // status set once, codes 200..599, not ErrAbortHandler
 }
@@ -204,9 +212,9 @@ func rlSemOf(beh []string) rlSem {
 		case t[0] == 'p':
 			sem.panicKind, _ = strconv.Atoi(t[1:])
 			return sem
-		case t == "w":
+		case t == "w", t == "f":
 			if !set {
-				set, sem.status = true, 200
+				set, sem.status = true, 200 // the implicit 200 of the first write or flush
 			}
 		case t[0] == 'h':
 			c, _ := strconv.Atoi(t[1:])
@@ -759,7 +767,7 @@ func rlRandomScript(r *Rng) []string {
 		case c < 45:
 			s = append(s, "w")
 		case c < 55:
-			s = append(s, Pick(r, []string{"R", "Rw", "J", "E404", "E500"}))
+			s = append(s, Pick(r, []string{"R", "Rw", "J", "E404", "E500", "flush", "flusherr", "flush", "flusherr"}))
 		case c < 90:
 			s = append(s, "p"+strconv.Itoa(1+r.Intn(rlKinds)))
 		case c < 94:
@@ -827,6 +835,15 @@ func (rr *rlRun) judge(c rlCase, o rlObs, shrink bool) {
 		s.Count("behaviour.return-without-writing")
 	default:
 		s.Count("behaviour.return-after-writing")
+	}
+	for _, t := range c.Script {
+		if t == "flush" || t == "flusherr" {
+			s.Count("behaviour.uses-" + t)
+			break
+		}
+	}
+	if len(c.Script) > 0 && (c.Script[0] == "flush" || c.Script[0] == "flusherr") && sem.panicKind > 0 {
+		s.Count("behaviour.flush-first-then-panic")
 	}
 	if sem.panicKind > 0 {
 		s.Count("panic." + rlKindNames[sem.panicKind])
@@ -938,7 +955,7 @@ func (rr *rlRun) batch(m *rlMux, cases []rlCase, via string, do func(c rlCase) r
 func runRelay(cfg Cfg) {
 	s := NewStream(cfg.Out, "relay")
 	defer s.Close()
-	s.Rule = "handler behaviour scripts (WriteHeader/Write/Respond200/RespondJson/Error404/Error500/return/panic with 11 kinds of values/ErrAbortHandler) on the real Mux+Relay, 3 handlers x 5 thresholds x plain/colourful, matched, unmatched (default and scripted no-route handler) and method-mismatch routes; exhaustive scripts up to length 3 (quick) / 4 (thorough) over {h200,h404,h500,w,p1,pa,r}, random longer ones, 32 requests in flight through recorders and (thorough) a real loopback server; evaluation = the C15 contract on one request; non-trivial = in-scope request whose handler panics, distinct by (handler, threshold, colour, script)"
+	s.Rule = "handler behaviour scripts (WriteHeader/Write/Flush/FlushError/Respond200/RespondJson/Error404/Error500/return/panic with 11 kinds of values/ErrAbortHandler) on the real Mux+Relay, 3 handlers x 5 thresholds x plain/colourful, matched, unmatched (default and scripted no-route handler) and method-mismatch routes; exhaustive scripts up to length 3 (quick) / 4 (thorough) over {h200,h404,h500,w,flush,p1,pa,r}, random longer ones, 32 requests in flight through recorders and (thorough) a real loopback server; evaluation = the C15 contract on one request; non-trivial = in-scope request whose handler panics, distinct by (handler, threshold, colour, script)"
 	rng := NewRng(cfg.Seed)
 	rr := &rlRun{s: s, muxes: map[string]*rlMux{}}
 	handlers := []string{"nano", "text", "json"}
@@ -949,7 +966,7 @@ func runRelay(cfg Cfg) {
 	}
 
 	// 1. exhaustive small scripts, every threshold, every handler
-	all := rlAllScripts([]string{"h200", "h404", "h500", "w", "p1", "pa", "r"}, cfg.N(3, 4))
+	all := rlAllScripts([]string{"h200", "h404", "h500", "w", "flush", "p1", "pa", "r"}, cfg.N(3, 4))
 	for i, sc := range all {
 		for _, thr := range rlLevels {
 			for hi, h := range handlers {
